@@ -418,6 +418,72 @@ def pass2_stream(ctx, real, quick):
     return nbad == 0
 
 
+def valgrind_run(exe, env, mode, data, work, tag):
+    """one file under valgrind (plain build): (error text or None)"""
+    lf = os.path.join(work, f"vg-{tag}.txt")
+    with open(lf, "w") as fh:
+        fh.write(f"{mode} 300 hex:{hexs(data)}\n")
+    e = dict(env)
+    e["C05_TMPDIR"] = work
+    try:
+        r = subprocess.run(["valgrind", "-q", "--error-exitcode=99", "--track-origins=yes", exe, "files", lf],
+                           capture_output=True, env=e, timeout=600)
+    except subprocess.TimeoutExpired:
+        return None
+    finally:
+        if os.path.exists(lf):
+            os.unlink(lf)
+    return r.stderr.decode("latin-1") if r.returncode == 99 else None
+
+
+def valgrind_pass(ctx, quick):
+    """thorough tier: reads of uninitialised memory (ASan/UBSan do not see them) — the plain build of the harness under
+    valgrind memcheck on damaged files: 32 records of every damaged-record shape, the corpus files cut at several offsets,
+    empty and white-space-only sections.  An error is a violation (undefined behaviour: a branch on an indeterminate value)."""
+    import shutil
+    if quick or not shutil.which("valgrind"):
+        ctx.cov["correspondence"]["valgrind"] = "not run (quick tier)" if quick else "not run (valgrind not installed)"
+        return
+    b = ctx.build("plain")
+    exe = os.path.join(ctx.work, "h_p21safe_plain_c05a")
+    B.gen_schema_lib(b, os.path.join(CORPUS, "c05a.exp"), os.path.join(ctx.work, "gen_plain_c05a"),
+                     [os.path.join(VERIF, "harness", "h_p21safe.cc")], exe)
+    files = []
+    for name, mk in dense_shapes().items():
+        if name.startswith("run of instances") or name.startswith("run of complex"):
+            files.append((name + " x 32", "x", mk(128)))
+    for f in ("c05a-base.p21", "c05a-scope.p21", "c05a-work.p21"):
+        d = open(os.path.join(CORPUS, f), "rb").read()
+        mode = "w" if "work" in f else "x"
+        files.append((f, mode, d))
+        for cut in sorted({len(d) // 4, len(d) // 3, len(d) // 2, len(d) - 60, len(d) - 40, len(d) - 22, len(d) - 5, len(d) - 1}):
+            files.append((f"{f} cut at {cut}", mode, d[:cut]))
+    head = (HDR_A % (Q + Q)).encode("latin-1")
+    for nm, d in [("empty file", b""), ("white space only", b" \n"), ("start keyword only", b"ISO-10303-21;"), ("header only", head[:head.index(b"DATA;")]),
+                  ("DATA; and white space", head[:head.index(b"DATA;") + 5] + b" \n"), ("no ENDSEC", head), ("no end keyword", head + b"ENDSEC;\n"),
+                  ("end keyword without ;", head + b"ENDSEC;\nEND-ISO-10303-21")]:
+        files.append((nm, "x", d))
+    with ThreadPoolExecutor(min(8, NPROC)) as ex:
+        outs = list(ex.map(lambda it: valgrind_run(exe, b.env(), it[1][1], it[1][2], ctx.work, it[0]), enumerate(files)))
+    seen = set()
+    for (name, mode, data), err in zip(files, outs):
+        ctx.count(1, key=("valgrind", name))
+        ctx.hist("valgrind inputs", name.split(" cut at")[0])
+        if not err:
+            continue
+        kinds = re.findall(r"==\d+== ((?:Conditional jump|Use of uninitialised|Invalid read|Invalid write|Syscall param)[^\n]*)\n==\d+==\s+at 0x[0-9A-F]+: ([^\n]*)", err)
+        for kind, where in kinds[:6]:
+            fn = where.split("(")[0].strip()
+            key = f"valgrind:{kind.split('(')[0].strip().replace(' ', '-')}@{fn}"
+            if key in seen:
+                continue
+            seen.add(key)
+            ctx.violation(key, f"valgrind memcheck on `{name}` ({len(data)} bytes): {kind} at {where}",
+                          {"kind": "valgrind", "schema": "c05a", "mode": mode, "mutation": name, "bytes_hex": data.hex(),
+                           "valgrind": err[:3000], "how": "valgrind -q --error-exitcode=99 h_p21safe(plain build) files <list with this input>"})
+    ctx.cov["correspondence"]["valgrind"] = {"inputs": len(files), "errors": len(seen)}
+
+
 def stream_kind(ctx, real, quick):
     """The function-level correspondence runs on std::istringstream, the file-level reader on std::ifstream.  A filebuf reads
     block-wise and has a one-byte putback area at a block boundary (and its pbackfail accepts a *different* character,
@@ -1349,6 +1415,7 @@ def run(ctx):
         aggr_exit_stream(ctx, real, quick, ms_per_byte)
         if si == 0:
             ratio_stream(ctx, real, quick)
+    valgrind_pass(ctx, quick)
     mfut.result()
     ctx.sample({"function-level request": "readreal " + hexs(b"1." + b"2" * 62), "meaning": "ReadReal on a 64-character number"})
     ctx.sample({"file-level mutant": "c05a-base.p21:stretch[real '1.25E-3'] n=64"})
@@ -1372,7 +1439,17 @@ def replay(ctx, path):
         exp_path = os.path.join(ctx.work, r.get("schema", "gen") + ".exp")
         open(exp_path, "w").write(r["schema_text"])
     real = Real(ctx, b, r.get("schema", "c05a"), exp_path=exp_path)
-    if r.get("kind") == "fn":
+    if r.get("kind") == "valgrind":
+        bp = ctx.build("plain")
+        exe = os.path.join(ctx.work, "h_p21safe_plain_c05a")
+        B.gen_schema_lib(bp, os.path.join(CORPUS, "c05a.exp"), os.path.join(ctx.work, "gen_plain_c05a"),
+                         [os.path.join(VERIF, "harness", "h_p21safe.cc")], exe)
+        err = valgrind_run(exe, bp.env(), r.get("mode", "x"), bytes.fromhex(r["bytes_hex"]), ctx.work, "replay")
+        if err:
+            ctx.violation(d.get("key", "replay"), f"replayed {r.get('mutation', '')}: valgrind reports an error", dict(r, valgrind=err[:3000]))
+        else:
+            print("replay: valgrind reports no error")
+    elif r.get("kind") == "fn":
         a = real.run_fn([r["request"]])[0]
         m = run_model(ctx, [r["request"]])[0] if os.path.exists(ctx.model_exe("m_c05")) else None
         if isinstance(a, dict):
